@@ -138,6 +138,25 @@ def fixed_probes():
     for k, mk in (("sliceMut", "let mut v = make(); let s = v.as_mut_slice();"), ("refMut", "let mut v = make(); let s = v.index_mut(0);"),
                   ("iterMut", "let mut v = make(); let s = v.iter_mut();")):
         add("move", f"{k} is not Clone", f"    {mk}\n    let t = s.clone();\n    use_(&s); use_(&t);", False)
+    # everything that conjures a view, reference or vector out of a pointer bundle (or skips a bounds check) is an `unsafe fn`:
+    # safe code cannot build two live mutable views of the same elements, or a view that outlives its vector, that way
+    gates = [("SliceMut::from_raw_parts_mut", "let mut v = make(); let n = v.len(); let p = v.as_mut_ptr();", "let a = {U}PSliceMut::from_raw_parts_mut(p, n){V}; let b = {U}PSliceMut::from_raw_parts_mut(p, n){V}; use_(&a); use_(&b);"),
+             ("Slice::from_raw_parts", "let v = make(); let n = v.len(); let p = v.as_ptr();", "let a: PSlice<'static> = {U}PSlice::from_raw_parts(p, n){V}; use_(&a);"),
+             ("Vec::from_raw_parts", "let mut v = make(); let n = v.len(); let c = v.capacity(); let p = v.as_mut_ptr();", "let w = {U}PVec::from_raw_parts(p, n, c){V}; std::mem::forget(w);"),
+             ("PtrMut::as_mut", "let mut v = make(); let p = v.as_mut_ptr();", "let a: PRefMut<'static> = {U}p.as_mut(){V}.unwrap(); let b: PRefMut<'static> = {U}p.as_mut(){V}.unwrap(); use_(&a); use_(&b);"),
+             ("Ptr::as_ref", "let v = make(); let p = v.as_ptr();", "let a: PRef<'static> = {U}p.as_ref(){V}.unwrap(); use_(&a);"),
+             ("Vec::get_unchecked_mut", "let mut v = make();", "let a = {U}v.get_unchecked_mut(0){V}; use_(&a);"),
+             ("Slice::get_unchecked", "let v = make(); let s = v.as_slice();", "let a = {U}s.get_unchecked(0){V}; use_(&a);")]
+    for nm, setup_, body_ in gates:
+        add("unsafe_gate", f"{nm} needs unsafe", f"    {setup_}\n    {body_.replace('{U}', '').replace('{V}', '')}", False)
+        add("unsafe_gate", f"{nm} inside an unsafe block", f"    {setup_}\n    {body_.replace('{U}', 'unsafe {{ ').replace('{V}', ' }}')}".replace("{{", "{").replace("}}", "}"), True)
+    # what a callback is shown lives for the call only: it cannot be kept and looked at after the container was reordered / compacted
+    add("callback", "sort_by_key argument cannot escape", "    let mut v = make(); let mut s = v.as_mut_slice(); let mut seen = Vec::new();\n    s.sort_by_key(|e| { seen.push(e); *e.a });\n    use_(&seen);", False)
+    add("callback", "sort_by arguments cannot escape", "    let mut v = make(); let mut s = v.as_mut_slice(); let mut seen = Vec::new();\n    s.sort_by(|x, y| { seen.push(x); x.a.cmp(y.a) });\n    use_(&seen);", False)
+    add("callback", "retain argument cannot escape", "    let mut v = make(); let mut seen = Vec::new();\n    v.retain(|e| { seen.push(e); true });\n    use_(&seen);", False)
+    add("callback", "retain_mut argument cannot escape", "    let mut v = make(); let mut seen = Vec::new();\n    v.retain_mut(|e| { seen.push(e); true });\n    use_(&seen);", False)
+    add("callback", "sort_by_key with a key computed from the argument", "    let mut v = make(); let mut s = v.as_mut_slice();\n    s.sort_by_key(|e| *e.a);\n    use_(&s);", True)
+    add("callback", "retain_mut writing through the argument", "    let mut v = make();\n    v.retain_mut(|e| { *e.a += 1; true });\n    use_(&v);", True)
     # disjoint halves of a mutable slice are both usable; the original is not
     add("split", "split_at_mut halves are independent", "    let mut v = make(); let s = v.as_mut_slice();\n    let (mut l, mut r) = s.split_at_mut(1);\n    *l.index_mut(0).a += 1; *r.index_mut(0).a += 1; use_(&l); use_(&r);", True, "surface 0 cVN u0 u0")
     add("split", "split_at_mut consumes the mutable slice", "    let mut v = make(); let s = v.as_mut_slice();\n    let (l, r) = s.split_at_mut(1);\n    let n = s.len();\n    use_(&l);", False, "surface 0 cVN cSN u0")
